@@ -69,6 +69,8 @@ def binary_forms(a, b, full=True):
         (f"{{'a': ({a}), 'b': ({b})}}.c", "Dict2Absent"), (f"{{'a': ({a}), 'b': ({b})}}['c']", "Dict2AbsentKey"),
         (f"({a}) if ({b}) else ({a})", "IfExpT"), (f"({a}) if ({a}) else ({b})", "IfExpE"), (f"(({a}), ({b}))", "Tuple2"),
         (f"[({a}), ({b})]", "List2"), (f"{{'a': ({a}), 'jet-pt': ({b})}}", "Dict2"), (f"(lambda q: ({a}))({b})", "CalledLambda"),
+        # records in both branches: the same fields, field by field the pairs a conditional takes (or does not take)
+        (f"{{'k': ({a}), 'n': 1}} if e else {{'n': 2.5, 'k': ({b})}}", "IfExpRecords"), (f"{{'d': {{'k': ({a})}}}} if e else {{'d': {{'k': ({b})}}}}", "IfExpNestedRecords"),
     ]
     return out
 
@@ -190,7 +192,13 @@ def same_dict_shape(a, b):
     if len(set(ka)) != len(ka) or set(ka) != set(kb):
         return False
     fb = dict(zip(kb, b.values))
-    return all(same_dict_shape(v, fb[k]) or _shape(v) == _shape(fb[k]) for k, v in zip(ka, a.values))
+
+    def go_together(x, y):
+        # the same rule as for the conditional itself, field by field: numbers and unknowns mix, the same obvious kind matches
+        kx, ky = kind(x), kind(y)
+        return (kx in ("num", "unknown") and ky in ("num", "unknown")) or (kx == ky and kx in ("bool", "str"))
+
+    return all(same_dict_shape(v, fb[k]) or _shape(v) == _shape(fb[k]) or go_together(v, fb[k]) for k, v in zip(ka, a.values))
 
 
 def refusal_classes(body):
